@@ -1,6 +1,7 @@
 package type5
 
 import (
+	"bytes"
 	"crypto/sha256"
 	"fmt"
 
@@ -77,6 +78,13 @@ func (s BatchedPrivateTokenRequestState) FinalizeTokens(tokenResponseEnc []byte)
 	err := proof.UnmarshalBinary(group.Ristretto255, proofEnc)
 	if err != nil {
 		return nil, err
+	}
+
+	// The scalar decoder ignores the top three bits of each proof scalar and
+	// reduces the rest, so require the canonical encoding explicitly
+	canonicalProofEnc, err := proof.MarshalBinary()
+	if err != nil || !bytes.Equal(canonicalProofEnc, proofEnc) {
+		return nil, fmt.Errorf("invalid batch token response proof encoding")
 	}
 
 	evaluation := &oprf.Evaluation{
